@@ -231,6 +231,9 @@ def _run(case, ctx, d):
     for it in items:
         if isinstance(it, slice):
             rows = range(*it.indices(n))
+            if len(rows) == 0:
+                ctx.note('skipped_empty_slice')      # outside the statement (selects no row)
+                continue
             neg = (it.start is not None and it.start < 0) or (it.stop is not None and it.stop < 0)
             touched = (rows[0], rows[-1])
         elif isinstance(it, (list, np.ndarray)):
